@@ -85,6 +85,7 @@ def run(rep):
         if 'C' in atoms:
             setT = atoms['C'][1]
             rep.check(setT[0] == 'new' and setT[3] == (), 'C08.closure-set', 'closure-set', where, f'the membership set is {E.show(setT, maxdepth=3)}', ok_detail=f'{setT[1]} created once')
+            closure_discipline(ogp, rep, 'C08.closure-set', q, setT, modP, where)
     # ---- once each: no second producer -----------------------------------------------------------------------------------------------
     tops = [tq for tq in ogp.summaries if any(c[0] == tq and c[1] == q for c in ogp.it.inline_calls)]
     for tq in tops:
@@ -301,6 +302,13 @@ def closure_discipline(ogp, rep, rule, driver_q, set_term, modP, where):
               f'(push constants, workgroup, later declarations, ...) are treated as not host-shareable', ok_detail='seeded from every module.global_variables element')
     recs = [e for e in effs if e['kind'] == 'reccall' and set_term in e['args']]
     rep.check(bool(recs), rule, 'closure-recursive', where, 'the set is not filled by a recursive type closure', ok_detail='filled by the recursive closure')
+    # nothing but the closure fills or alters the set: an `extend` / `insert` / `remove` / `retain` / `clear` on it outside the closure function
+    # changes which types count as reachable from a module-scope variable
+    closure_fns_ = {e['callee'] for e in recs}
+    alien = [e for e in effs if e['kind'] == 'mutate' and e.get('target') == set_term and not (e['method'] == 'insert' and e['in'] in closure_fns_)]
+    rep.check(not alien, rule, 'closure-only', where,
+              f'the set {E.show(set_term, maxdepth=3)} is also altered outside the type closure ({sorted(set(e_["method"] + " in " + e_["in"].split("::")[-1] for e_ in alien))}): types that are not '
+              f'reachable from a module-scope variable are added to it (or reachable ones removed)', ok_detail='altered only by the closure\'s own inserts')
     done = set()
     for e in recs:
         cq = e['callee']
